@@ -17,6 +17,9 @@ def spec_states(spec, n):
     states = oracle.all_states(n, outliers=True)
     if spec[0] == "single":
         return [states[spec[1]]]
+    if spec[0] == "pair":
+        # two trees recorded equally often with equal scores: every clade they do not share has support exactly one half
+        return [states[spec[1]], states[spec[2]]]
     if spec[0] == "revisit":
         # the same tree recorded twice, numbered differently, the later copy with the higher score
         asym = [s for s in states if len(s[0]) >= 2 and len({(len(b), p is None) for b, p in s[0]}) >= 2 or (len(s[0]) >= 3)]
@@ -145,7 +148,9 @@ def case(item):
         trees = [oracle.build(s, data, reverse_siblings=(spec[0] == "revisit" and k == 1)) for k, s in enumerate(sts)]
         for t in trees:
             t.relabel_nodes()
-        if spec[0] == "revisit":
+        if spec[0] == "pair":
+            chains = {0: [(trees[0], -1.0), (trees[1], -1.0)]}
+        elif spec[0] == "revisit":
             chains = {0: [(trees[0], -3.0), (trees[1], -1.0)]}
         else:
             chains = {0: [(t, -1.0 - 0.5 * k) for k, t in enumerate(trees)]}
@@ -159,7 +164,7 @@ def case(item):
         single = sts[0] if (len(sts) == 1 or spec[0] == "revisit") else None
         jobs = []
         for mode in ("joint-likelihood", "frequency"):
-            jobs.append(("map/" + mode, lambda tb, tr, mode=mode: write_map_results(path, tb, tr, map_type=mode), sts[0] if mode == "joint-likelihood" or single else None))
+            jobs.append(("map/" + mode, lambda tb, tr, mode=mode: write_map_results(path, tb, tr, map_type=mode), None if spec[0] == "pair" else (sts[0] if mode == "joint-likelihood" or single else None)))
         for wt in ("counts", "joint-likelihood"):
             jobs.append(("consensus/" + wt, lambda tb, tr, wt=wt: write_consensus_results(path, tb, tr, consensus_threshold=0.5, weight_type=wt), single))
         for label, fn, expect in jobs:
@@ -332,6 +337,16 @@ def main(tier, seed):
                 for cl in (False, True):
                     for dims in (1, 2):
                         items.append((n, ("empty-clone", k), cl, dims))
+    # even splits: every unordered pair of distinct trees over 3 data points (quick: all pairs of outlier-free trees, every 4th other pair)
+    st3 = oracle.all_states(3, outliers=True)
+    pk = 0
+    for i in range(len(st3)):
+        for j in range(i + 1, len(st3)):
+            pk += 1
+            if tier == "quick" and (st3[i][1] or st3[j][1]) and pk % 4:
+                continue
+            for cl in ((False, True) if tier == "thorough" else (bool(pk % 2),)):
+                items.append((3, ("pair", i, j), cl, 1))
     # several chains, stored in every order in which they can complete (run() fills the result dictionary in completion order)
     layouts = [(2, (1, 0)), (3, (1, 2, 0)), (3, (2, 1, 0))]
     items += [it + (layouts[k % 3],) for k, it in enumerate(list(items)) if it[3] == 1 or k % 4 == 0]
